@@ -88,6 +88,9 @@ class TALFileHandler(FileHandler):
             self.entry.realencoding = self.entry.encoding
             self.entry.encoding = None
             self.entry.type = self.entry.guesstype()
+            # The client receives the expanded template, whose length is not
+            # known in advance: do not advertise the size of the source file.
+            self.entry.size = None
 
         return self.entry
 
